@@ -3,7 +3,8 @@
 # check of its property in scratch worktrees and writes selftest/RESULTS.md.  Expected: fa_* / *_fa_* stay clean (exit 0),
 # everything else is reported (exit 1).   usage: run_all_mutants.sh [scale]
 scale=${1:-0.3}
-out=/verif/selftest/RESULTS.md
+V=$(dirname "$(dirname "$(readlink -f "$0")")")
+out=$V/selftest/RESULTS.md
 echo "# Sensitivity and false-alarm runs (VERIF_SCALE=$scale of the quick tier, $(date -u +%Y-%m-%dT%H:%MZ), /repo at $(git -C /repo rev-parse --short HEAD))" > $out
 echo "" >> $out
 echo "| change | property | expected | exit | histories / runs | with violations | first classes reported |" >> $out
@@ -11,7 +12,7 @@ echo "|---|---|---|---|---|---|---|" >> $out
 run() {
   patch=$1; prop=$2; expect=$3; name=$4
   log=/tmp/mut-$$.log
-  TAILN=400 /verif/selftest_run.sh $patch $prop $scale > $log 2>&1
+  TAILN=400 $V/selftest_run.sh $patch $prop $scale > $log 2>&1
   code=$(grep -o 'exit=[0-9]*' $log | tail -1 | cut -d= -f2)
   runs=$(grep -o '\] [0-9]* histories' $log | head -1 | grep -o '[0-9]*')
   [ -z "$runs" ] && runs=$(grep -o '[0-9]* simulated parallel runs\|layer [BC]: [0-9]* runs' $log | grep -o '[0-9]*' | paste -sd+ | bc)
@@ -21,7 +22,7 @@ run() {
   echo "$name $prop expect=$expect exit=$code"
   rm -f $log
 }
-for p in /verif/selftest/mutants/*.patch; do
+for p in $V/selftest/mutants/*.patch; do
   n=$(basename $p .patch)
   case $n in
     fa_*) prop=$(echo $n | sed 's/fa_\(c[0-9]*\)_.*/\1/' | tr a-z A-Z); exp=0 ;;
@@ -30,7 +31,7 @@ for p in /verif/selftest/mutants/*.patch; do
   esac
   run $p $prop $exp "mutants/$n"
 done
-for d in /verif/seeded/*/; do
+for d in $V/seeded/*/; do
   n=$(basename $d)
   case $n in
     preserving-*) prop=$(echo $n | cut -d- -f2); run $d/patch.diff $prop 0 "seeded/$n" ;;
